@@ -171,6 +171,8 @@ def gen_scenario(rng, big=False):
                         f_count[i] = 0
                 coord.append("R%d" % r)
     lines = ["SEED %d" % rng.randint(1, 10**9), "NES %d" % nes, "WATCHDOG 10"]
+    if nes >= 2 and rng.random() < 0.3:
+        lines.insert(2, "SHARED 1")   # the secondary streams serve one shared pool: blocked ULTs resume on other streams
     for i in range(ne):
         lines.append("EVENTUAL %d %d" % (i, caps[i]))
     for i in range(nf):
